@@ -33,6 +33,19 @@ pub fn weight(prop: &str, e: &Episode) -> usize {
         }
         return w;
     }
+    if e.tys == "two" {
+        // evaluating a form costs (number of terms) x (number of assignments); a form built from a table
+        // or a cube list is evaluated by every later operation of the episode
+        let mut terms = 0usize;
+        for op in &e.ops {
+            for k in ["on", "cubes"] {
+                if let Some(a) = op.get(k).and_then(|v| v.as_array()) {
+                    terms += a.len();
+                }
+            }
+        }
+        return base + terms * e.ops.len() * (1usize << e.n) / 256;
+    }
     base
 }
 
